@@ -1,4 +1,4 @@
-import Gimli.Lemmas.WCfiTable
+import Gimli.Lemmas.WCfiHeader
 /-!
 # C14 — Written frame tables read back with the same CIEs, FDEs and unwind rows
 
@@ -146,10 +146,37 @@ state or the same error.  This covers each choice of form: `def_cfa` / `def_cfa_
 `def_cfa_offset` / `_sf`, `offset` / `offset_extended` / `offset_extended_sf`,
 `val_offset` / `_sf`, `restore` / `restore_extended`. -/
 theorem instr_roundtrip (c : DecodeCfg) (p : Params)
-    (wi : WInstr) (hv : wi = .negateRaState → c.vendor = .aarch64) (hr : wi.InRange) (bs rest : Bytes) (pos : Nat) (s : State)
+    (wi : WInstr) (hv : wi = .negateRaState → c.vendor = .aarch64) (hr : wi.InRange) (bs : Bytes)
     (h : instrWrite p.dataAlign wi = .ok bs) :
-    ∃ i, parse c pos (bs ++ rest) = .ok (i, rest) ∧ step p s i = wStep s wi :=
-  instr_roundtrip_main c p wi hv hr bs rest pos s h
+    ∃ i, (∀ (pos : Nat) (rest : Bytes), parse c pos (bs ++ rest) = .ok (i, rest)) ∧
+      ∀ s : State, step p s i = wStep s wi :=
+  instr_roundtrip_main c p wi hv hr bs h
+
+/-- **rows_roundtrip (whole programs, the "unwind rows" clause).** Take any CIE program and any FDE
+program with its code offsets (operands in range; `NegateRaState` only under the AArch64 vendor
+setting), any factors, any address size, any initial address and length.  If the writer emits both
+instruction streams, then — whatever the number of padding nops behind each, wherever they lie in
+the section — C06's instruction iterator decodes both to the end without error, and C06's
+call-frame semantics of the decoded streams (`Spec.Unwind.table`, unbounded storage) is exactly
+`wTable`: the rows meant by the instructions supplied at their code offsets (each later offset
+completes a row `[loc, loc + (offset − prev))` with the rules as they were; the last row ends at
+the FDE's end address), or the same error after the same rows when the supplied program is not
+meaningful (e.g. `RestoreState` with nothing remembered) or leaves the address space.
+With C06's `unwind_bytes_refines` (Model of `UnwindTable` = that semantics) this is: the rows
+gimli reads back from a written table are the rows supplied. -/
+theorem rows_roundtrip (cc fc : DecodeCfg) (p : Params)
+    (cie : List WInstr) (fde : List (Nat × WInstr))
+    (hcr : ∀ i ∈ cie, i.InRange) (hcv : ∀ i ∈ cie, i = .negateRaState → cc.vendor = .aarch64)
+    (hfr : ProgInRange fde) (hfv : ProgVendorOk fc fde)
+    (cb fb : Bytes) (n1 n2 ciePos fdePos initial len : Nat)
+    (hc : instrsWrite p.dataAlign cie = .ok cb)
+    (hf : fdeInstrsWrite fc.endian p.codeAlign p.dataAlign 0 fde = .ok fb) :
+    (decodeAll cc ciePos (cb ++ List.replicate n1 0)).2 = .ok () ∧
+    (decodeAll fc fdePos (fb ++ List.replicate n2 0)).2 = .ok () ∧
+    table p none none (decodeAll cc ciePos (cb ++ List.replicate n1 0)).1 none
+        (decodeAll fc fdePos (fb ++ List.replicate n2 0)).1 none initial len =
+      wTable p cie fde initial len :=
+  rows_roundtrip_main cc fc p cie fde hcr hcv hfr hfv cb fb n1 n2 ciePos fdePos initial len hc hf
 
 /-! ## 4. decreasing code offsets are rejected -/
 
@@ -304,5 +331,120 @@ theorem cie_emitted_once (m : Mode) (e : Endian) (eh : Bool) (t : Table) (es : L
   · unfold tableWrite tableEntries
     rw [h]
     rfl
+
+/-- **every FDE is bound to its CIE.** In the entries written for a table, every FDE entry is what
+`FrameDescriptionEntry::write` produces for the CIE of its `CieId`, with the CIE pointer computed
+against the offset of *the* CIE entry of that id in this section (unique by `cie_emitted_once`),
+which lies before it.  (With `fde_header_roundtrip`: reading the FDE finds exactly that CIE.) -/
+theorem fde_entries_bound (m : Mode) (e : Endian) (eh : Bool) (t : Table) (es : List Entry)
+    (h : tableEntries m e eh t = .ok es) (ci off : Nat) (fb : Bytes) (hmem : Entry.fde ci off fb ∈ es) :
+    ∃ c f cieOff cb, t.cies[ci]? = some c ∧ fdeWrite m e eh off cieOff c f = .ok fb ∧ cieOff ≤ off ∧
+      Entry.cie ci cieOff cb ∈ es ∧ cieWrite m e eh c cieOff = .ok cb := by
+  unfold tableEntries at h
+  have hb := writeLoop_bound m e eh t.cies t.fdes _ 0 es (by simp) (by
+    intro i o h'
+    have : (List.replicate t.cies.length (none : Option Nat)).getD i none = none := by
+      simp only [List.getD_eq_getElem?_getD, List.getElem?_replicate]
+      split <;> rfl
+    rw [this] at h'; cases h') h
+  obtain ⟨c, f, cieOff, hc, hw, hle, hor⟩ := FdesBound.mem es hb ci off fb hmem
+  rcases hor with h1 | ⟨cb, hm, hcw⟩
+  · have : (List.replicate t.cies.length (none : Option Nat)).getD ci none = none := by
+      simp only [List.getD_eq_getElem?_getD, List.getElem?_replicate]
+      split <;> rfl
+    rw [this] at h1; cases h1
+  · exact ⟨c, f, cieOff, cb, hc, hw, hle, hm, hcw⟩
+
+/-! ## 7. layout: pointers and entry headers read back -/
+
+/-- **eh_pointer_roundtrip.** Every pointer encoding the writer supports — formats absptr, uleb128,
+udata2/4/8, sleb128, sdata2/4/8 × applications absptr and pcrel, with or without the indirect
+flag — for every address that fits the address size (1, 2, 4, 8) and every position in the
+section: what `write_eh_pointer` emits is decoded by `parse_encoded_pointer` (C06's Model, section
+base 0) to the same address and the encoding's indirect flag, consuming exactly those bytes.
+(Every other encoding is `UnsupportedPointerEncoding`; a value that does not fit the format is
+`ValueTooLarge` — the hypothesis `h` is "the writer did emit it".) -/
+theorem eh_pointer_roundtrip (m : Mode) (e : Endian) (pos v enc size : Nat) (p : PtrParams) (bs rest : Bytes)
+    (hs : size = 1 ∨ size = 2 ∨ size = 4 ∨ size = 8) (hv : v < 2 ^ (8 * size))
+    (hp : p.addressSize = size) (hb : p.sectionBase = some 0)
+    (h : ehPointer e pos (.const v) enc size = .ok bs) :
+    parseEncodedPointer m e enc p pos (bs ++ rest) = .ok ((v, enc / 128 % 2 = 1), rest) :=
+  ehPointer_roundtrip m e pos v enc size p bs rest hs hv hp hb h
+
+/-- **cie_header_roundtrip, partial.** For every CIE the writer emits — both sections, versions
+1/3/4, both formats, every factor, every augmentation combination — the small Spec reader
+(`Spec.WCfi.readCieHeader`: DWARF 5 §6.4.1 / LSB layout) finds, field by field, what was
+supplied: format, a length field equal to the entry size minus the length field, the CIE id,
+version, the augmentation string `z[L][P][R][S]`, the address size (version 4), both alignment
+factors, the return address register, the augmentation data, and after them exactly the emitted
+initial instructions followed by the padding nops.
+
+Full-strength statement (not provable, the code violates it — recorded finding C14-1): the same
+without hypothesis `hra`.  The gap: in `.eh_frame` (version 1) the writer emits the return
+address register as ULEB128 where a version 1 CIE has a single byte, which differs from register
+128 on; see `eh_ra_counterexample`. -/
+theorem cie_header_roundtrip_partial (m : Mode) (e : Endian) (eh : Bool) (c : WCie) (off : Nat) (bs : Bytes)
+    (hr : c.InRange) (hra : eh = true → c.raReg.toNat < 128) (hlen : bs.length < 2 ^ 64)
+    (h : cieWrite m e eh c off = .ok bs) :
+    ∃ aug ins n pos, cieAugData e c pos = .ok aug ∧ instrsWrite c.dataAlign c.instructions = .ok ins ∧
+      readCieHeader e eh bs = .ok
+        { format := c.format, length := bs.length - lenFieldSize c.format, version := c.version,
+          augmentation := c.augString,
+          addressSize := if c.version = 4 then some c.addressSize else none,
+          codeAlign := c.codeAlign, dataAlign := c.dataAlign, raReg := c.raReg.toNat,
+          augData := if c.hasAugmentation then some aug.tail else none,
+          instructions := ins ++ List.replicate n 0 } :=
+  cie_header_roundtrip_main m e eh c off bs hr hra hlen h
+
+/-- **the gap of `cie_header_roundtrip` (finding C14-1), pinned.** An `.eh_frame` CIE with return
+address register 128 and an `R` augmentation (`DW_EH_PE_pcrel|sdata4`): the writer emits the two
+bytes `80 01` for the register; a reader of the version 1 layout takes `80` as the register and
+`01` as the augmentation length, so the FDE pointer encoding it finds is `01`, not `1b`. -/
+theorem eh_ra_counterexample :
+    ∃ bs hdr, cieWrite .release .little true
+        { format := .dwarf32, version := 1, addressSize := 8, codeAlign := 1, dataAlign := -8, raReg := 128,
+          fdeAddressEncoding := 0x1b } 0 = .ok bs ∧
+      readCieHeader .little true bs = .ok hdr ∧ hdr.raReg = 128 ∧ hdr.augData = some [0x01] := by
+  refine ⟨_, _, rfl, rfl, ?_, ?_⟩ <;> decide
+
+/-- **fde_header_roundtrip.** For every FDE the writer emits — both sections and formats, plain
+or `R`-encoded address fields, with or without an LSDA — for a constant address and LSDA that fit
+the address size: the Spec reader (`Spec.WCfi.readFdeHeader`) finds the CIE the entry was written
+for (`.debug_frame`: its section offset; `.eh_frame`: the distance back from the pointer field),
+the initial location and address range supplied, the LSDA pointer supplied (with the indirect flag
+of its encoding), a length field equal to the entry size minus the length field, and after them
+exactly the emitted instructions followed by the padding nops. -/
+theorem fde_header_roundtrip (m : Mode) (e : Endian) (eh : Bool) (off cieOff : Nat) (c : WCie) (f : WFde)
+    (bs : Bytes) (a : Nat)
+    (hs : c.addressSize = 1 ∨ c.addressSize = 2 ∨ c.addressSize = 4 ∨ c.addressSize = 8)
+    (ha : f.address = .const a) (hav : a < 2 ^ (8 * c.addressSize)) (hl : f.length < 2 ^ 32)
+    (hmatch : f.lsda.isSome = c.lsdaEncoding.isSome)
+    (hlsda : ∀ l, f.lsda = some l → ∃ v, l = .const v ∧ v < 2 ^ (8 * c.addressSize))
+    (hcie : cieOff ≤ off) (hend : off + bs.length < 2 ^ 64)
+    (h : fdeWrite m e eh off cieOff c f = .ok bs) :
+    ∃ ins n, fdeInstrsWrite e c.codeAlign c.dataAlign 0 f.instructions = .ok ins ∧
+      readFdeHeader m e eh c.info off bs = .ok
+        { format := c.format, length := bs.length - lenFieldSize c.format, cieOffset := cieOff,
+          initialLocation := a, addressRange := f.length, lsda := expectedLsda c f,
+          instructions := ins ++ List.replicate n 0 } :=
+  fde_header_roundtrip_main m e eh off cieOff c f bs a hs ha hav hl hmatch hlsda hcie hend h
+
+/-! ## non-vacuity: the hypotheses are satisfiable by concrete, non-trivial values -/
+
+example : (WInstr.offset 16 (-8)).InRange := by unfold WInstr.InRange isI32; decide
+example : instrWrite (-8) (.offset 16 (-8)) = .ok [0x90, 0x01] := by decide
+example : instrWrite (-8) (.offset 16 8) = .ok [0x11, 0x10, 0x7f] := by decide
+example : instrWrite 4 (.offset 16 (-6)) = .err .wInvalidFrameDataOffset := by decide
+example : writeAdvanceLoc .little 4 8 0x108 = .ok [0x02, 0x40] := by decide
+example : writeAdvanceLoc .little 4 8 0x104 = .ok [0x7f] := by decide
+example : writeAdvanceLoc .little 1 0 0x100 = .ok [0x03, 0x00, 0x01] := by decide
+example : ProgInRange [(0, .cfaOffset 16), (4, .offset 6 (-16)), (0x104, .restore 6)] := by
+  simp [ProgInRange, WInstr.InRange, isI32]
+example : (({} : WCie)).InRange := by
+  refine ⟨by decide, by decide, by decide, by decide, ?_, ?_, by decide⟩ <;> intro _ <;> simp
+example : ehPointer .little 0x20 (.const 0x1000) 0x1b 8 = .ok [0xe0, 0x0f, 0x00, 0x00] := by decide
+example : ∃ bs, fdeWrite .release .little true 0x18 0 { fdeAddressEncoding := 0x1b, dataAlign := -8 }
+    { address := .const 0x1000, length := 0x20, instructions := [(4, .cfaOffset 16)] } = .ok bs ∧ bs.length = 24 :=
+  ⟨_, rfl, by decide⟩
 
 end Gimli.Props.C14
